@@ -167,9 +167,9 @@ Definition stages_of (n nres : nat) (ts : list task) : option (list (list nat)) 
 
 (** * Run-time fork/join structure *)
 
-(** What a run looks like: items in program order; a join has the items of
-    its first closure and of its second closure. *)
-Inductive item := ILeaf (t : nat) | IJoin (l r : list item).
+(** What a run looks like: a series-parallel term.  [SPar a b] is one
+    [rayon::join(|| a, || b)]; [SSeq a b] is "a, then b" on one thread. *)
+Inductive sp := SNil | SLeaf (t : nat) | SSeq (a b : sp) | SPar (a b : sp).
 
 (** borrowed_archetypes: shape ↦ merged claims. *)
 Definition borrowed := list (shape * claims).
@@ -216,9 +216,9 @@ Section Run.
 
   (** [Stage::run_add_ons] over the next stage's tasks. Returns the items run
       and the has_run flags. *)
-  Fixpoint add_ons (next : list nat) (b : borrowed) (rc : claims) : option (list item * list bool) :=
+  Fixpoint add_ons (next : list nat) (b : borrowed) (rc : claims) : option (sp * list bool) :=
     match next with
-    | [] => Some ([], [])
+    | [] => Some (SNil, [])
     | i :: rest =>
         match task_at i with
         | None => None
@@ -231,7 +231,7 @@ Section Run.
                     match merge_archs_checked cl (reached t archs) b with
                     | Some b' =>
                         match add_ons rest b' rc' with
-                        | Some (items, hr) => Some ([IJoin items [ILeaf i]], true :: hr)
+                        | Some (items, hr) => Some (SPar items (SLeaf i), true :: hr)
                         | None => None
                         end
                     | None =>
@@ -254,11 +254,11 @@ Section Run.
   (** [Stage::run] over the tasks of one stage. [None] = undefined behaviour
       ([merge_unchecked] on claims that do not merge). *)
   Fixpoint stage_run (stage : list nat) (has_run : list bool) (b : borrowed) (rc : claims)
-           (next : list nat) : option (list item * list bool) :=
+           (next : list nat) : option (sp * list bool) :=
     match stage with
     | [] =>
         match b with
-        | [] => Some ([], map (fun _ => false) next)
+        | [] => Some (SNil, map (fun _ => false) next)
         | _ => add_ons next b rc
         end
     | i :: rest =>
@@ -276,7 +276,7 @@ Section Run.
                         claims_try_merge rc (res_claims nres t) with
                   | Some b', Some rc' =>
                       match stage_run rest hs b' rc' next with
-                      | Some (items, nh) => Some ([IJoin items [ILeaf i]], nh)
+                      | Some (items, nh) => Some (SPar items (SLeaf i), nh)
                       | None => None
                       end
                   | _, _ => None
@@ -286,22 +286,22 @@ Section Run.
     end.
 
   (** [Stages::run] *)
-  Fixpoint stages_run (stages : list (list nat)) (has_run : list bool) : option (list item) :=
+  Fixpoint stages_run (stages : list (list nat)) (has_run : list bool) : option sp :=
     match stages with
-    | [] => Some []
+    | [] => Some SNil
     | st :: rest =>
         let next := match rest with nx :: _ => nx | [] => [] end in
         match stage_run st has_run [] (repeat CNone nres) next with
         | Some (items, nh) =>
             match stages_run rest nh with
-            | Some more => Some (items ++ more)
+            | Some more => Some (SSeq items more)
             | None => None
             end
         | None => None
         end
     end.
 
-  Definition run_schedule : option (list (list nat) * list item) :=
+  Definition run_schedule : option (list (list nat) * sp) :=
     match stages_of n nres tasks with
     | None => None
     | Some stages =>
